@@ -3,9 +3,9 @@ package main
 // SMT-LIB helpers: sorts, names, prelude.
 
 import (
-	"regexp"
 	"fmt"
 	"go/types"
+	"regexp"
 	"sort"
 	"strings"
 )
